@@ -390,6 +390,11 @@ Walk:
 						return current, false
 					}
 
+					if idx >= 0 && path[charsMatched] == slashDelim {
+						// An infix catch-all never capture an empty leading segment
+						break Walk
+					}
+
 					subCtx := tree.ctx.Get().(*cTx)
 					startPath := charsMatched
 					for {
